@@ -27,6 +27,7 @@ func init() {
 			"every referenced switch in {absent,true,false,\"str\"} in the parent's defaults and in user values (16 pairs; 6 pairs on the larger trees in the quick tier) x backgrounds of the other dependencies; " +
 			"V = value trees: for each leaf of {k, global.g, global.t.x, global.t.u.x} every subset of the tree's value positions (user sections and every chart's values.yaml sections at every level, incl. decoy sections under the real name of an aliased chart), " +
 			"all sets of <=2 (thorough <=3) (leaf,position) atoms over 7 leaves, all pairs of positions x all non-empty subsets of 4 leaves, each with no/each dependency switched off; " +
+			"C = condition paths with several table elements (addons.X.enabled, X.addons.feat.enabled, addons.extra.X.enabled) on four trees: the boolean at the full path x the element missing / present as a table x a boolean at the path with the element left out in {absent,true,false,\"str\"} in the parent's values.yaml and in user values x tags (a path resolves only if every element exists); " +
 			"R = one chart used 2 (thorough 3) times under aliases at the same level, itself having 2..3 conditional dependencies (one of them optionally aliased): every assignment of {on, off in user values, off in the parent's values.yaml} to every (use, grandchild) x every use on / switched off; " +
 			"N = non-interference differential per dependency (inner: values destined for it, outer: everything else); H = client-only dry-run install per combination of per-dependency off-switch kinds. " +
 			"distinct = canonical JSON of the whole case (tree, Chart.yaml switches, every values.yaml, user values); every case has >=1 dependency and is non-trivial in that its expected render differs by construction from case to case (values name their source position)",
@@ -44,6 +45,7 @@ func init() {
 			"condition-beats-tags", "nonbool-condition-skipped", "second-condition-path-decides", "alias-rendered", "same-chart-twice-one-off", "nested-under-disabled-parent",
 			"global-ancestor-wins", "global-flows-two-levels", "decoy-section-not-seen", "disabled-keeps-parent-data", "live-schema-rejects", "disabled-schema-skipped",
 			"install-hooks-filtered", "install-crds-filtered", "differential-ran",
+			"multi-element-condition-path-decides", "unresolved-condition-path-shadowed-by-opposite-boolean",
 			"repeated-chart-grandchild-off-under-first-use-only", "repeated-chart-nonlast-grandchild-off-under-both-uses"},
 	})
 }
@@ -373,6 +375,39 @@ func run(c *core.Ctx) {
 			nN += e.differential(t)
 		}
 		c.Bound("N_runs", fmt.Sprint(nN))
+	}
+
+	// C: condition paths with several table elements, one of them missing
+	if only("C") {
+		nC := 0
+		for _, t := range ts {
+			switch t.ID {
+			case "P-A", "P-A.B", "P-A-C", "P-a2=A":
+			default:
+				continue
+			}
+			enumC(t, func(s cSpec) {
+				nC++
+				if !c.NextMine() {
+					return
+				}
+				cs := buildC(t, s)
+				_, m := e.one("C", cs)
+				f := findInst(m.root, s.Focus)
+				full, short, _ := cPaths(s.Shape, f.name)
+				fv, fok := getPath(m.parentEff[f], full)
+				sv, sok := getPath(m.parentEff[f], short)
+				_, fb := fv.(bool)
+				sb, isb := sv.(bool)
+				if fok && fb {
+					c.Floor("multi-element-condition-path-decides")
+				}
+				if !fok && sok && isb && sb != m.enabled[f] {
+					c.Floor("unresolved-condition-path-shadowed-by-opposite-boolean")
+				}
+			})
+		}
+		c.Bound("C_cases", fmt.Sprint(nC))
 	}
 
 	// R: the same chart several times at one level, with conditional grandchildren
